@@ -2,13 +2,20 @@
 #include "contracts/verif.h"
 #include "x_fd_flags.h"
 #include "contracts/C09_lines.h"
-int verif_exc; uint64_t g_i, g_consumed, g_off, g_hits, g_col; bool g_interior; int g_width;
+int verif_exc; uint64_t g_i, g_off, g_col; bool g_interior; int g_width;
 #include "x_fd_lines.c"
 
-void h_lines(void)
+void h_line_loop(void)
 {
-  uint64_t in_start, in_size, in_flags, in_off;
-  g_off = in_off;
-  fd_line_loop(in_start, in_size, in_flags);
+  uint64_t in_start, in_size;
+  fd_line_loop(in_start, in_size);
+  VERIF_REACH();
+}
+
+void h_line(void)
+{
+  uint64_t in_start, in_size, in_flags, in_off, in_i;
+  g_off = in_off; g_i = in_i;
+  fd_line(in_start, in_size, in_flags);
   VERIF_REACH();
 }
